@@ -272,6 +272,9 @@ func getPath(v Val, path []int) Val {
 }
 
 func elemType(t types.Type) types.Type {
+	if t == nil {
+		return nil
+	}
 	switch u := t.Underlying().(type) {
 	case *types.Array:
 		return u.Elem()
@@ -642,7 +645,10 @@ func (ev *Evaluator) opaque(name string, args []Val, res *types.Tuple, st *State
 			return Call(name+suffix, ts...)
 		}
 		if isErrorType(t) {
-			return Nil{}
+			if name == "errors.New" || name == "fmt.Errorf" || strings.HasSuffix(name, "/sdf.ErrMsg") {
+				return &Sym{Path: "error:" + name, T: t}
+			}
+			return Nil{} // other library calls are assumed to succeed
 		}
 		ct := Call(name+suffix, ts...)
 		return &Sym{Path: ct.Key(), T: t, Call: ct}
@@ -1201,7 +1207,22 @@ func symLike(name string, like Val) Val {
 		}
 		return out
 	case *Sym:
-		return symLike(name, materialise(x))
+		m := materialise(x)
+		if _, same := m.(*Sym); same {
+			return &Sym{Path: name, T: x.T}
+		}
+		return symLike(name, m)
+	case *SliceV:
+		var t types.Type
+		if x.Sym != nil {
+			t = x.Sym.T
+		}
+		return &SliceV{Len: -1, Sym: &Sym{Path: name, T: t}}
+	case Nil:
+		// a nil slice/pointer/interface that the loop re-binds: unknown afterwards
+		return &Sym{Path: name}
+	case *Alt:
+		return &Sym{Path: name}
 	}
 	return like
 }
@@ -1223,6 +1244,7 @@ func recordRec(name string, init, step Val) {
 			for i := range x.Elems {
 				// two naming schemes: struct field names (symVal/materialise) or index (symLike)
 				recordRec(fmt.Sprintf("%s.%d", name, i), x.Elems[i], sa.Elems[i])
+				recordRec(fmt.Sprintf("%s[%d]", name, i), x.Elems[i], sa.Elems[i])
 				if stt, ok2 := x.T.(interface{ Underlying() types.Type }); ok2 && x.T != nil {
 					if su, ok3 := stt.Underlying().(*types.Struct); ok3 {
 						recordRec(name+"."+su.Field(i).Name(), x.Elems[i], sa.Elems[i])
@@ -1231,6 +1253,8 @@ func recordRec(name string, init, step Val) {
 			}
 		}
 	case *Sym:
-		recordRec(name, materialise(x), step)
+		if m := materialise(x); m != Val(x) {
+			recordRec(name, m, step)
+		}
 	}
 }
